@@ -35,3 +35,19 @@ func VerifDump(w Wal) string {
 		t.currentSegment.LastOffset(), g.allSegments.Keys(), g.openSegments.Keys(),
 		t.firstOffset.Load(), t.lastAppendedOffset.Load(), t.lastSyncedOffset.Load())
 }
+
+// VerifForceClose releases the mappings of a WAL whose owner goroutines are gone
+// (post-mortem clean-up of an explored execution). Errors are ignored.
+func VerifForceClose(w Wal) {
+	defer func() { _ = recover() }()
+	t := w.(*wal)
+	if t.cancel != nil {
+		t.cancel()
+	}
+	if t.currentSegment != nil {
+		_ = t.currentSegment.Close()
+	}
+	if t.readOnlySegments != nil {
+		_ = t.readOnlySegments.Close()
+	}
+}
